@@ -27,7 +27,7 @@ RULE = ("sequences of 120-300 datagrams through 2 associations x 2 sessions x up
         "everything-on-one-IP layout): valid messages of every template in both directions on open circuits, interleaved with "
         "random bytes, truncations, bad rsv/frag/address-type/short SOCKS headers, unknown hosts, unregistered circuits, "
         "pre-session traffic, UDP-banned names, duplicate UseCircuitCode, circuit close and re-open. quick 8 x 10 sequences, "
-        "thorough 16 x 300. distinct_nontrivial = distinct (direction, message name, region slot, preceded-by-garbage) "
+        "thorough 16 x 600. distinct_nontrivial = distinct (direction, message name, region slot, preceded-by-garbage) "
         "deliveries checked")
 ASSUMPTIONS = [
     "an open circuit = UseCircuitCode seen from the viewer for a region the session knows, not (yet) closed by "
@@ -427,7 +427,7 @@ def _msgclass(name):
 
 
 def run(ctx):
-    n = ctx.pick(10, 300)
+    n = ctx.pick(10, 600)
     for i in range(n):
         if ctx.out_of_time():
             break
